@@ -86,6 +86,8 @@ def isNob (c : Char) : Bool := c ≠ '{' && c ≠ '}'
 def isValueCh (c : Char) : Bool := c ≠ ';'
 def isAlpha (c : Char) : Bool := ('a' ≤ c && c ≤ 'z') || ('A' ≤ c && c ≤ 'Z')
 def notQuote (c : Char) : Bool := c ≠ '"'
+/-- a character at which the ignored terminal can neither start nor continue -/
+def solid (c : Char) : Bool := !isBlank c && c ≠ '\n' && c ≠ '\r' && c ≠ '/'
 
 /-- rest after the longest run of comments, line ends and blanks; the flag says "inside a comment" -/
 def skipIgn : Bool → List Char → List Char
@@ -570,14 +572,24 @@ def StilFile.toFile (f : StilFile) : Option KV.Stil.File :=
 abbrev K (k : Kw) : Txt := k.chars
 def enc (ts : List Txt) : List Char := ts.flatMap fun t => ' ' :: t
 
-/-- a skipped region is printed as `{ }` (only the empty one is in the printer's range) -/
-def ignToks : List Txt := [K .Lbrace, K .Rbrace]
+/-- the body of a skipped region and its closing brace as blank-separated chunks; a text chunk carries the brace that
+ends it (`_NOB` runs up to the next brace, so no blank may stand between them) -/
+def ignChunks : List IgnTok → List Txt
+  | [] => [K .Rbrace]
+  | .opn :: r => K .Lbrace :: ignChunks r
+  | .cls :: r => K .Rbrace :: ignChunks r
+  | .nob t :: r =>
+    match ignChunks r with
+    | c :: cs => (t ++ c) :: cs
+    | [] => [t]
+/-- a skipped region: `{`, body, `}` -/
+def ignToks (ig : List IgnTok) : List Txt := K .Lbrace :: ignChunks ig
 def ignOptToks : Option (List IgnTok) → List Txt
-  | some _ => ignToks
+  | some ig => ignToks ig
   | none => []
 def semiToks (b : Bool) : List Txt := if b then [K .Semi] else []
 def headToks : Option (List IgnTok) → List Txt
-  | some _ => ignToks
+  | some ig => ignToks ig
   | none => [K .Semi]
 def Group.toks (g : Group) : List Txt :=
   g.name :: K .Equal :: K .Quote :: g.first :: (g.more.flatMap (fun q => [K .Plus, q]) ++
@@ -598,12 +610,12 @@ def PatItem.toks : PatItem → List Txt
   | .label q => [q, K .Colon]
   | .w q => [K .W, q, K .Semi]
   | .macro_ q => [K .Macro, q, K .Semi]
-  | .c _ => K .C :: ignToks
-  | .ann _ => K .Ann :: ignToks
+  | .c ig => K .C :: ignToks ig
+  | .ann ig => K .Ann :: ignToks ig
   | .call n ps => K .Call :: n :: K .Lbrace :: (ps.flatMap paramToks ++ [K .Rbrace])
 def Block.toks : Block → List Txt
-  | .skip k _ => K k :: ignToks
-  | .burst q _ => K .Patternburst :: q :: ignToks
+  | .skip k ig => K k :: ignToks ig
+  | .burst q ig => K .Patternburst :: q :: ignToks ig
   | .ukw t => [K .Userkeywords, t]
   | .groups gs => K .Signalgroups :: K .Lbrace :: (gs.flatMap Group.toks ++ [K .Rbrace])
   | .chains cs => K .Scanstructures :: K .Lbrace :: (cs.flatMap Chain.toks ++ [K .Rbrace])
@@ -625,10 +637,23 @@ def vFloat (v : Txt) : Bool := !v.isEmpty && v.all isFloatCh
 /-- a parameter value: no `;`, not starting with something the ignored terminal would drop -/
 def vValue (v : Txt) : Bool :=
   match v with
-  | c :: _ => c ≠ '\n' && c ≠ '\r' && c ≠ '/' && !isBlank c && v.all isValueCh
+  | c :: _ => solid c && v.all isValueCh
   | [] => false
 def vUkw (t : Txt) : Bool := t.getLast? = some ';' && t.dropLast.all isAlpha
-def vIgn (ig : List IgnTok) : Bool := ig.isEmpty
+/-- a text run inside a skipped region: no brace, starting with a solid character -/
+def vNob (t : Txt) : Bool :=
+  match t with
+  | c :: _ => solid c && t.all isNob
+  | [] => false
+/-- well-formed body of a skipped region, as the reader produces it: `d` = open inner braces, `nobOk` = a text run may
+stand here (not directly after another one); ends with all inner braces closed -/
+def ignOK : Nat → Bool → List IgnTok → Bool
+  | d, _, [] => d == 0
+  | d, _, .opn :: r => ignOK (d + 1) true r
+  | 0, _, .cls :: _ => false
+  | d + 1, _, .cls :: r => ignOK d true r
+  | d, ok, .nob t :: r => ok && vNob t && ignOK d false r
+def vIgn (ig : List IgnTok) : Bool := ignOK 0 true ig
 
 def Group.valid (g : Group) : Bool :=
   vQ g.name && vQ g.first && g.more.all vQ && (match g.ign with | some ig => vIgn ig | none => true)
